@@ -10,6 +10,11 @@ Every line runs the model functions the C17 theorems are about
 (`Model.Slice.partition/rotate/chunks/batches/head/tail/stripe/at/ptrAt`),
 prints the model's observation, and judges the *implementation's* observation
 with the list-level acceptance tests of `Spec.Slices`.
+
+`partitiont|rotatet|chunkst|batchest ty arg` are the same calls at another element type (`stepT`): for `str` the
+conversion of the cells is injective and the line is the plain one; for the zero-size types `zs`, `za` every cell
+reads back as 0 and there are no addresses to tell cells apart, so the same `step` runs on the memory with every
+cell 0, positions are shown as `-3` (and not judged), and every cell is 0 again afterwards.
 -/
 namespace MdsVerif.Drv.C17
 open MdsVerif.Drv MdsVerif.Model.Slice MdsVerif.Spec
@@ -17,6 +22,8 @@ open MdsVerif.Drv MdsVerif.Model.Slice MdsVerif.Spec
 structure S where
   mem : List Int := []
   vs : Hdr := ⟨0, 0, 0⟩
+  /-- the current line is a call at a zero-size element type: positions are not observable -/
+  zs : Bool := false
 
 /-- keep predicate of the harness: bit `v mod 32` of the mask -/
 def keepOf (mask : Nat) (v : Int) : Bool := mask.testBit (v % 32).toNat
@@ -65,7 +72,8 @@ subslice has no capacity (no backing cell, hence no position: `none`, which the 
 `-1` with a capacity, a negative capacity — is given the impossible position `-1`, which no acceptance test
 admits (they all demand a position `≥ 0`): a negative field is rejected, never clamped. -/
 def readPos (s : S) (off cap : Int) : Option Int :=
-  if off == -1 && cap == 0 then none
+  if s.zs then none
+  else if off == -1 && cap == 0 then none
   else if off < 0 || cap < 0 then some (-1)
   else some (off - s.vs.off)
 
@@ -171,7 +179,45 @@ def step (s : S) (toks : List String) (impl : String) : S × String × String :=
     else (s, "bad-op", "bad bad-op")
   | _ => (s, "bad-op", "bad bad-op")
 
-def mk (name : String) : Stream := { name := name, σ := S, init := {}, step := step }
+/-- one token of an observation at a zero-size element type: every value is 0, a position other than `-1` is `-3` -/
+def zsTok (key tok : String) : String :=
+  let pre := if tok.startsWith "[" then "[" else ""
+  let post := if tok.endsWith "]" then "]" else ""
+  let core := String.ofList (tok.toList.filter fun c => c != '[' && c != ']')
+  match core.toInt? with
+  | none => tok
+  | some n =>
+    if key == "off" || key == "offs" then pre ++ (if n == -1 then "-1" else "-3") ++ post
+    else if key == "res" || key == "vs" || key == "base" || key == "app" || key == "cat" then pre ++ "0" ++ post
+    else tok
+
+def zsObs (obs : String) : String :=
+  if obs.startsWith "panic" || obs == "hang" then obs else
+  let r := (obs.splitOn " ").foldl (fun (acc : String × List String) tok =>
+    match tok.splitOn "=" with
+    | [k, v] => (k, (k ++ "=" ++ zsTok k v) :: acc.2)
+    | _ => (acc.1, zsTok acc.1 tok :: acc.2)) ("", [])
+  " ".intercalate r.2.reverse
+
+def typedOp (op : String) : Option String :=
+  if op == "partitiont" then some "partition" else if op == "rotatet" then some "rotate"
+  else if op == "chunkst" then some "chunks" else if op == "batchest" then some "batches" else none
+
+/-- `step` plus the calls at other element types -/
+def stepT (s : S) (toks : List String) (impl : String) : S × String × String :=
+  match toks with
+  | [op, ty, a] =>
+    match typedOp op with
+    | some base =>
+      if ty == "str" then step s [base, a] impl
+      else if ty == "zs" || ty == "za" then
+        let (s', o, v) := step { s with mem := s.mem.map (fun _ => 0), zs := true } [base, a] impl
+        ({ s' with mem := s'.mem.map (fun _ => 0), zs := false }, zsObs o, v)
+      else (s, "bad-op", "bad bad-op")
+    | none => step s toks impl
+  | _ => step s toks impl
+
+def mk (name : String) : Stream := { name := name, σ := S, init := {}, step := stepT }
 
 def streams : List Stream :=
   [mk "C17.partition", mk "C17.rotate", mk "C17.chunks", mk "C17.batches", mk "C17.index"]
